@@ -275,9 +275,11 @@ func genTable(r *Rng, router int, maxWs int) (TableSpec, []genRoute) {
 		nr := r.Intn(7)
 		for i := 0; i < nr; i++ {
 			var toks []tplTok
+			var sibling *RouteSpec
 			if i > 0 && r.Pct(35) {
 				// a sibling of an earlier route: same shape with one token changed, or same path other method
 				prev := all[len(all)-1-r.Intn(min(i, len(all)))]
+				sibling = &prev.spec
 				toks = append([]tplTok{}, prev.toks[min(len(rootToks), len(prev.toks)):]...)
 				if len(toks) > 0 && r.Pct(70) {
 					k := r.Intn(len(toks))
@@ -295,6 +297,13 @@ func genTable(r *Rng, router int, maxWs int) (TableSpec, []genRoute) {
 			rel := renderPath(toks, r)
 			rs := RouteSpec{ID: id, Method: r.Pick(methodPool[:5+r.Intn(8)]), Rel: rel,
 				Consumes: genMimeList(r), Produces: genMimeList(r)}
+			if sibling != nil && r.Pct(45) {
+				// contested negotiation: same method as the sibling, one acceptable by name and one by wildcard only
+				rs.Method = sibling.Method
+				rs.Consumes = sibling.Consumes
+				rs.Produces = [][]string{{}, {"*/*"}, {"application/json"}, {"application/xml"}, {"application/json", "*/*"},
+					{"application/xml", "application/json"}}[r.Intn(6)]
+			}
 			id++
 			nc := []int{0, 0, 0, 1, 2}[r.Intn(5)]
 			for c := 0; c < nc; c++ {
@@ -403,6 +412,11 @@ func genRequest(r *Rng, routes []genRoute) *Req {
 		}
 		if len(gr.spec.Produces) > 0 && r.Pct(50) {
 			q.Set("Accept", nearMime(r, r.Pick(gr.spec.Produces)))
+		}
+		if r.Pct(12) {
+			// a named type next to a wildcard: routes acceptable by name compete with routes acceptable by wildcard
+			q.Set("Accept", r.Pick([]string{"application/json, */*;q=0.5", "application/xml, */*", "*/*;q=0.1, application/xml",
+				"application/json", "application/xml;q=0.9, application/json, */*;q=0.1"}))
 		}
 	case p < 90:
 		// adversarial paths
